@@ -393,7 +393,7 @@ func pathRandString(r *Rand, lo, hi int) string {
 	return sb.String()
 }
 
-var pathTokensX = []string{"%2f", "%e9", "%c3%a9", "%C3%A9", "%41", "%e4%bd%a0"}
+var pathTokensX = []string{"%2f", "%e9", "%c3%a9", "%C3%A9", "%41", "%e4%bd%a0", "%3F", "%3f", "?", "%23"}
 
 // pathFlipEscapes changes the case of the hex digits of every %xx escape (lower <-> upper).
 func pathFlipEscapes(p string) string {
